@@ -187,6 +187,8 @@ def run(ck, w):
         fam = family_with_callees(w, fn, "transport::%s::" % kind)
         oo = ck.ob("C07.2.%s" % kind, "%s Protocol::write honours CreateNew with an exclusive-create primitive that reaches the creating call" % kind)
         problems = []
+        race_window = False
+        cns = []
         # (a) forbidden creators
         for b in fam:
             for e in b.events:
@@ -278,6 +280,12 @@ def run(ck, w):
             if grow:
                 problems.append(("the file is sized or positioned by %s before / instead of writing content: a kill leaves a non-empty file that is not the content" %
                                  grow[0][1].name.split("::")[-1], grow[0][1].site(), "file sized without content"))
+            # (f) the completion of an empty file and the create-then-write of a new one are both in place: a file that a concurrent
+            # create-new writer has created but not yet filled is indistinguishable from a leftover (reported separately below)
+            any_cn = any(re.search(r"^(tokio|std)::fs::OpenOptions::create_new$", e.name) for b in fam for e in b.events if e.bb in b.live)
+            race_window = bool(bare) and bool(lens) and any_cn and any(
+                re.search(r"::write_all$|AsyncWriteExt::write$|io::Write::write$", e.name)
+                for b in fam for e in b.events if e.bb in b.live)
             if bare and not lens:
                 problems.append(("a non-exclusive, non-truncating open exists without a zero-length test of the file in the way", bare[0][1].site(),
                                  "leftover completion without a zero-length test"))
@@ -330,6 +338,15 @@ def run(ck, w):
                 ck.fail(oo, fn, key, msg, site)
         else:
             ck.ok(oo, "%d bodies in family" % len(fam), instances=len(fam))
+        if kind == "local":
+            o2 = ck.ob("C07.2.race", "local Protocol::write: a create-new write is refused for a file that another writer is in the middle of creating "
+                                     "(the zero-length completion cannot be mistaken for it)")
+            if race_window:
+                ck.fail(o2, fn, "zero-length completion can hit a file a concurrent writer has just created",
+                        "the new file is created exclusively and then filled in place, and an existing EMPTY file is completed in place: between "
+                        "the winner's create and its first write the loser's create-new write succeeds instead of being refused")
+            else:
+                ck.ok(o2)
 
     # ---- 3. new id above all existing ---------------------------------------------------------------
     o = ck.ob("C07.3", "a new band's id is last_band_id().next_sibling() (or zero when there is none)")
